@@ -122,12 +122,33 @@ async def _async_history(seed: int, udp: bool) -> dict[str, Any]:
             e.update(obs())
         events.append(e)
 
+    with_clients = rng.random() < 0.5
+    client_sock = harness.loopback_tcp_pair() if (with_clients and not udp) else None
+    connected: list[Any] = []
+
+    def connect_clients() -> None:
+        """Clients of the running server: one whose handler waits for a request, one in the middle of a frame, one UDP peer mid-handler."""
+        lst = listeners[-1]
+        if udp:
+            lst.push(b"hello\n", ("10.0.0.9", 9))
+            return
+        assert client_sock is not None
+        for kind in ("idle", "half_frame"):
+            rx, tx = memtransport.MemPipe(), memtransport.MemPipe()
+            tr = memtransport.MemStreamTransport(backend, rx, tx, extra=harness.socket_extra(client_sock[1]))
+            lst.push(tr)
+            if kind == "half_frame":
+                rx.feed(b"incomplete requ")
+            connected.append(tr)
+
     class UpEvent:
         def __init__(self, a: int) -> None:
             self.a = a
 
         def set(self) -> None:
             ev("up", self.a)
+            if with_clients:
+                asyncio.get_running_loop().call_soon(connect_clients)
 
     async def do_call(a: int, what: str) -> None:
         if what == "serve":
@@ -161,7 +182,10 @@ async def _async_history(seed: int, udp: bool) -> dict[str, Any]:
     tasks = [asyncio.ensure_future(actor(a)) for a in (1, 2, 3)]
     done, pending = await asyncio.wait(tasks, timeout=12)
     # whatever is still serving is stopped by the harness (actor 9): every call must return
-    if pending:
+    for _ in range(4):
+        # (an actor may serve again after the harness stopped it: its plan is not over)
+        if not pending:
+            break
         await do_call(9, "shutdown")
         done, pending = await asyncio.wait(tasks, timeout=30)
     await asyncio.sleep(2)
@@ -177,7 +201,14 @@ async def _async_history(seed: int, udp: bool) -> dict[str, Any]:
         ev("probe", observe=True)
         ev("end")
     lsock.close()
-    return {"events": events, "meta": f"async {'UDP' if udp else 'TCP'} seed={seed} plans={plans} service_init={init_delay}s"}
+    if client_sock is not None:
+        # every connection of a server that stopped serving has been closed by it
+        await asyncio.sleep(0)
+        if any(not tr.closed for tr in connected) and events and events[-1]["ev"] == "end":
+            events[-1] = {"ev": "client_left_open", "a": 0, "out": "", "serving": False, "listening": False}
+        for s_ in client_sock:
+            s_.close()
+    return {"events": events, "meta": f"async {'UDP' if udp else 'TCP'} seed={seed} plans={plans} service_init={init_delay}s connected_clients={with_clients}"}
 
 
 def _listener_extra(sock: Any) -> dict[Any, Any]:
